@@ -209,6 +209,8 @@ def cex_props(res):
         return ['C12']
     if d == 'derive_fail':
         return ['C14']
+    if d == 'derive_hidden':
+        return ['C16', 'C11']
     return []
 
 
